@@ -18,6 +18,11 @@ def items(a, thorough):
            dict(name='error_and_ids', entry='c16_error_and_ids', args=[0, 0, 0, 0], timeout=to, loop_limit=500),
            dict(name='absent_id/basic', entry='c16_absent_id_basic', args=[0, 0, 0, 0], timeout=to, loop_limit=500),
            dict(name='absent_id/extended', entry='c16_absent_id_extended', args=[0, 0, 0, 0], timeout=to, loop_limit=500)]
+    for k in range(12 if thorough else 3):
+        out.append(dict(name='history/basic/%d' % k, entry='c16_history_basic', args=[rnd.randrange(268), rnd.randrange(268), 0, 0],
+                        timeout=to, loop_limit=900))
+        out.append(dict(name='history/extended/%d' % k, entry='c16_history_extended', args=[rnd.randrange(387), rnd.randrange(387), 0, 0],
+                        timeout=to, loop_limit=900))
     for i in range(268):
         out.append(dict(name='managed/basic/%03d' % i, entry='c16_managed_basic',
                         args=[i, rnd.choice([i, rnd.randrange(268)]), rnd.randrange(0, 1577923200), 0], loop_limit=500, reach=0))
@@ -30,7 +35,8 @@ def items(a, thorough):
 def bounds(a, thorough):
     return {'manual': 'std, dst and a second pair: all int16; instant: all int32', 'zone_ids': 'all uint32 (symbolic), absent ids '
             'assumed different from all 268 / 387 registry ids', 'registry_index': 'every entry of zonedb (268) and zonedbx (387), '
-            'second zone and probe instant drawn with VERIF_SEED', 'loop_unwinding': 500}
+            'second zone and probe instant drawn with VERIF_SEED', 'restore_histories': 'one fixed 11-call pattern (hit, absent, same absent, hit, '
+            'second absent, ...) on one manager, ids symbolic, %d seed-drawn zone pairs per registry' % (12 if thorough else 3), 'loop_unwinding': 500}
 
 
 if __name__ == '__main__':
